@@ -1037,11 +1037,21 @@ structure C14Run where
   st : ConnState
   idx : List (Nat × Nat) := []       -- client conn id ↦ index in st.conns
   handshaken : List Nat := []        -- client conn ids with an established SSH client
+  gen : Gen.Conn.stats := {}         -- tie G: the translated counter of internal/server/stats.go, stepped beside the model
+  genBad : Bool := false             -- the translated counter and the model's disagreed at some step
 
 def c14lookup (r : C14Run) (i : Nat) : Option Nat := (r.idx.find? (·.1 == i)).map (·.2)
 
 def c14step (r : C14Run) (l : CLabel) : C14Run := match connStep r.st l with
-  | some s => { r with st := s }
+  | some s =>
+    let ext : Go.Ext := { parseFloat := fun _ => (0, none), maxConnections := r.st.max }
+    let g := match l with
+      | .connect => (match Gen.Conn.stats.serverLimitExceeded ext r.gen with
+          | (g, some _) => g
+          | (g, none) => Gen.Conn.stats.incrementConnections ext g)
+      | .handshakeFail _ | .close _ => Gen.Conn.stats.decrementConnections ext r.gen
+      | _ => r.gen
+    { r with st := s, gen := g, genBad := r.genBad || g.currentConnections != s.counter }
   | none => r
 
 def c14op (r : C14Run) (op : String) : C14Run × Bool :=
@@ -1088,7 +1098,7 @@ def opC14Script : List String → Res
           (r, acc.2 ++ [s!"{r.st.counter}/{boolStr ok}/{r.st.counter}"])) ({ st := connInit max }, [])
       let top : Int := obs.foldl (fun (m : Int) o => max' m (((o.splitOn "/").headD "0").toInt?.getD 0)) 0
       let low : Int := obs.foldl (fun (m : Int) o => let v : Int := ((o.splitOn "/").headD "0").toInt?.getD 0; if v < m then v else m) 0
-      { m := joinWith "," obs ++ ";final=0",
+      { m := if r.genBad then "TRANSLATED-COUNTER-DIFFERS-FROM-MODEL" else joinWith "," obs ++ ";final=0",
         s := (if top ≤ max ∧ low ≥ 0 then "bounded" else "OUT-OF-BOUNDS") ++ ";final=0",
         t := joinWith "," ((if r.st.conns.contains .refused then ["refused"] else []) ++ (if opl.any (·.startsWith "B") then ["badcred"] else [])
           ++ (if opl.any (·.startsWith "S") then ["shell"] else []) ++ (if opl.any (·.startsWith "T") then ["rawtcp"] else [])
